@@ -753,8 +753,8 @@ Section PaintSpec.
   Lemma paint_rows_equiv : forall P first complete,
     rows_equiv Wn (paint_rows W first complete P) (wrap Wn (map lt P))
     /\ length (paint_rows W first complete P) = N.to_nat (visual_line_count P W).
-  Proof.
-    induction P as [|l P IH]; intros first complete.
+  Proof using HW.
+    clear HH Hn. induction P as [|l P IH]; intros first complete.
     - split; reflexivity.
     - cbn [paint_rows map]. unfold wrap. cbn [map concat]. fold (wrap Wn (map lt P)).
       destruct (IH false complete) as (He & Hl).
